@@ -164,8 +164,11 @@ def api_level_hint(name, c):
 def run_streams(ctx, P):
     res = {"violations": [], "known": [], "coverage": {}}
     for modname in P.get("streams", []):
+        fn = "run"
+        if ":" in modname:
+            modname, fn = modname.split(":", 1)
         mod = importlib.import_module(modname)
-        r = mod.run(ctx, P)
+        r = getattr(mod, fn)(ctx, P)
         res["violations"] += r.get("violations", [])
         res["known"] += r.get("known", [])
         for k, v in r.get("coverage", {}).items():
@@ -206,4 +209,11 @@ PROPS = {
     "C15": P("proof", ["urlenc"], trusted_base=TB_CORR),
     "C16": P("proof", ["usp"], trusted_base=TB_CORR, coq_files=["Properties_C16.v", "Properties_C16_compare.v"]),
     "C17": P("exploration", ["filepath"], trusted_base=TB_CORR),
+    "C04": {"level": "exploration", "streams": ["runtime:run_c04"], "trusted_base": TB_CORR,
+            "stream_names": ["parse", "setters", "histories", "canparse", "encodings", "ipv4", "ipv6", "percent", "urlenc", "usp", "host", "filepath"]},
+    "C18": {"level": "translation_validation", "streams": ["runtime:run_c18"], "trusted_base": TB_CORR,
+            "stream_names": ["parse", "reparse", "setters", "histories", "canparse", "encodings", "ipv4", "ipv6", "percent", "urlenc", "usp", "host", "filepath"]},
+    "C19": {"level": "exploration", "streams": ["runtime:run_c19"], "trusted_base": TB_CORR,
+            "stream_names": ["parse", "setters", "histories", "host", "usp", "percent", "filepath"]},
+    "C20": {"level": "fault_enumeration", "streams": ["runtime:run_c20"], "trusted_base": TB_CORR},
 }
